@@ -3,7 +3,9 @@ package main
 import (
 	"bufio"
 	"bytes"
+	"context"
 	"encoding/json"
+	"errors"
 	"io"
 
 	"github.com/asticode/go-astits"
@@ -16,14 +18,15 @@ import (
 // go by (what the specification models).  Frame i carries PID 0x100+i.  Only the result of every NextPacket call is logged.
 
 type rmodelScenario struct {
-	SID   string `json:"sid"`
-	S     int    `json:"S"`
-	Kind  string `json:"rkind"` // seek | bufio | plain
-	NPK   int    `json:"npk"`
-	Extra int    `json:"extra"`
-	Auto  bool   `json:"auto"`
-	Sched []int  `json:"sched"` // sizes of the reads the underlying reader grants, cyclically (empty = as asked)
-	Name  string `json:"schedname"`
+	SID    string `json:"sid"`
+	S      int    `json:"S"`
+	Kind   string `json:"rkind"` // seek | bufio | plain
+	NPK    int    `json:"npk"`
+	Extra  int    `json:"extra"`
+	Auto   bool   `json:"auto"`
+	Sched  []int  `json:"sched"` // sizes of the reads the underlying reader grants, cyclically (empty = as asked)
+	Name   string `json:"schedname"`
+	Cancel int    `json:"cancel"` // the context is cancelled before this call (0-based; -1 = never)
 }
 
 func rmodelStream(S, npk, extra int) []byte {
@@ -90,18 +93,26 @@ func runRModel(line []byte, rec *recorder) {
 	default:
 		fatal("unknown reader kind %q", sc.Kind)
 	}
-	run := demuxRun{PSize: sc.S}
+	ctx, cancel := context.WithCancel(context.Background())
+	defer cancel()
+	opts := []func(*astits.Demuxer){astits.DemuxerOptPacketSize(sc.S)}
 	if sc.Auto {
-		run.PSize = -1
+		opts = nil
 	}
-	dmx := newDemuxer(r, run)
+	dmx := astits.NewDemuxer(ctx, r, opts...)
 	for k := 0; k < sc.NPK+6; k++ {
+		if k == sc.Cancel {
+			cancel()
+			rec.ev(M{"ev": "rcancel"})
+		}
 		res := -3
 		if pn := safeCall(func() {
 			p, err := dmx.NextPacket()
 			switch {
 			case err == astits.ErrNoMorePackets:
 				res = -2
+			case errors.Is(err, context.Canceled):
+				res = -5
 			case err != nil:
 				res = -3
 			default:
